@@ -771,7 +771,15 @@ func check(kind string, ops []string, res *hlib.Result, count bool) []verdict {
 				class += "+retry-differs"
 				sb := boundaryBase(bnd)
 				if k == "restore" {
-					sb = "restore"
+					// the signature names the boundary and the effect, so that the known finding D10
+					// (the restored root is reported but unreadable after the retry) does not cover a
+					// different divergence at the same or another boundary of a restore
+					eff := "other"
+					if d := firstDiff(after, ref.ObsFull); strings.Contains(d, "has=true read=!node_not_found` vs `root") &&
+						!strings.Contains(strings.SplitN(d, "` vs `", 2)[1], "!node_not_found") {
+						eff = "root-unreadable"
+					}
+					sb = "restore:" + boundaryBase(bnd) + ":" + eff
 				}
 				vs = append(vs, verdict{"spec", fmt.Sprintf("%s:crash-retry-differs:%s", kind, sb),
 					fmt.Sprintf("after a crash at %s and a successful retry of `%s` the state differs from the uninterrupted run: %s", bnd, lastOp, firstDiff(after, ref.ObsFull))})
